@@ -49,7 +49,7 @@ theorem writer_close_tie {α δ : Type} {S : AgeModel.Stream.DstSpec} (A : AEAD)
     (hctr : m.ctr + 2 < 2 ^ 88) :
     ∃ res, Extracted.stream_Writer_Close E.seal_ D.write w = .ok res ∧
       let mc := m.close A 65536 (2 ^ 88) k
-      GoTie.wrErrRel res.1 D.eW mc.2 ∧
+      GoTie.wrErrRel res.1 D.eW mc.2 ∧ GoTie.WRel D res.2 mc.1 ∧
       (mc.2 = none → D.absD res.2.dst = mc.1.dst) ∧
       GoTie.wrErrRel res.2.err D.eW mc.1.err :=
   GoTie.writer_close_tie A k E D w m h hctr
